@@ -1,5 +1,6 @@
 import Gbo.Spec.Valid
 import Gbo.Proofs.HoleLinks
+import Gbo.Proofs.Assembly
 /-
   C02 — result rings form a valid polygon set.  The consequence stated in the property: when holes lie in
   their exterior, holes of one polygon are disjoint and polygons are disjoint (at a point), the
@@ -112,5 +113,65 @@ theorem C02_hole_bookkeeping (cfg : Cfg) (a : Arena) (event : Nat) (contours con
          ∀ j, j ≠ p.toNat → contours'[j]! = contours[j]!
      | none => contours' = contours) :=
   initializeFromContext_links cfg a event contours contours' cid c h
+
+/-- **C02 (every traced contour becomes exactly one ring, under the right polygon).**  For every pair of
+    operands, every operation and every arithmetic: whenever `boolean_operation` returns through the sweep,
+    there is the list `cs` of contours `connect_edges` traced such that
+
+    * the rings of the result, read polygon by polygon (shell, then interiors), are a rearrangement of the
+      closed point lists of `cs`: no contour is lost and none is emitted twice;
+    * the polygons are, in order, the contours that are no hole, each as the shell of its own polygon;
+    * the polygon of such a contour `q` is in the result with, as its interiors, the rings of the ids `q`
+      lists, and `q` lists contour `j` exactly when `j` names `q` as its parent (`hole_of`);
+    * a parent is always a contour that is no hole.
+
+    The assembly itself cannot fail: every listed id is a valid index (the `Option`/index path of the model
+    is never taken).  This is the whole-loop form of `C02_hole_bookkeeping`. -/
+theorem C02_every_contour_one_ring (ar : Arith) (cfg : Cfg) (subject clipping : MPoly) (op : Op) (out : RunOut)
+    (h : booleanOperation ar cfg subject clipping op = .ok out) (hnt : out.trivial = false) :
+    ∃ cs : Array Contour,
+      (out.result.flatMap (fun p => p.ext :: p.holes)).Perm (cs.toList.map (fun c => closeRing c.points.toList)) ∧
+      out.result.map (fun p => p.ext) =
+        (cs.toList.filter (fun c => c.holeOf.isNone)).map (fun c => closeRing c.points.toList) ∧
+      (∀ q, q < cs.size → cs[q]!.holeOf = none →
+        polyOf cs cs[q]! ∈ out.result ∧
+        ∀ j, j < cs.size → (cs[j]!.holeOf = some (q : Int) ↔ (j : Int) ∈ cs[q]!.holeIds.toList)) ∧
+      (∀ j, j < cs.size → ∀ p, cs[j]!.holeOf = some p → idxOk cs.size p = true ∧ cs[p.toNat]!.holeOf = none) := by
+  obtain ⟨cs, hb, hres⟩ := booleanOperation_assembly ar cfg subject clipping op out h hnt
+  refine ⟨cs, ?_, ?_, ?_, ?_⟩
+  · rw [hres, assemble_rings]
+    have h1 := hb.perm.map (ringOf cs)
+    refine h1.trans ?_
+    rw [toList_eq_range_map, List.map_map, List.map_map]
+    apply List.Perm.of_eq
+    apply List.map_congr_left
+    intro j _
+    simp [ringOf]
+  · rw [hres, List.map_map]
+    rfl
+  · intro q hq hext
+    refine ⟨?_, ?_⟩
+    · rw [hres]
+      apply List.mem_map.mpr
+      refine ⟨cs[q]!, List.mem_filter.mpr ⟨?_, by simp [hext]⟩, rfl⟩
+      rw [toList_eq_range_map]
+      exact List.mem_map.mpr ⟨q, List.mem_range.mpr hq, rfl⟩
+    · intro j hj
+      constructor
+      · intro hp
+        have := (hb.parent j hj _ hp).2.2
+        simpa using this
+      · intro hmem
+        have := (hb.child q hq _ hmem).2
+        simpa using this
+  · intro j hj p hp
+    exact ⟨(hb.parent j hj p hp).1, (hb.parent j hj p hp).2.1⟩
+
+/-- non-vacuity of the bookkeeping invariant: a polygon with a hole and an island in that hole -/
+example : Book #[{ holeIds := #[1] }, { holeOf := some 0 }, { }] := by
+  have h0 := book_push_none #[] { } book_empty rfl rfl
+  have h1 := book_push_some _ ({ holeOf := some 0 } : Contour) 0 h0 rfl rfl (by decide) rfl
+  have h2 := book_push_none _ { } h1 rfl rfl
+  exact h2
 
 end Gbo.Props
